@@ -670,3 +670,234 @@ pub fn conformance_values(n: usize) -> Result<usize, Viol> {
     }
     Ok(n)
 }
+
+// ------------------------------------------------------------------------------------------
+// Wallet-driven rollback commutes with the in-memory rollback
+// ------------------------------------------------------------------------------------------
+//
+// The SQLite store is never told about a reorg directly: `WalletWrite::truncate_to_height` (and
+// `rewind_to_chain_state`, which ends in the same `truncate_to_height_internal`) rolls every stored
+// migration back inside the wallet's own transaction, at the height the wallet ACHIEVED. The
+// oracle: the migration loaded back after the wallet-level truncation equals
+// `MigrationState::truncate_to_height(achieved)` applied to the state that was saved — except for
+// the policy-terminal statuses (failed / superseded / cancelled), which the store's truncation walk
+// documents as left untouched ("record decisions, not chain state, and stay put").
+
+use zcash_client_backend::data_api::WalletWrite as _;
+use zcash_client_sqlite::testing::BlockCache;
+
+/// Number of empty blocks the rollback wallet has scanned (heights lo ..= lo + RB_BLOCKS - 1).
+const RB_BLOCKS: u32 = 26;
+
+struct RbDb {
+    st: TestState<BlockCache, TestDb, LocalNetwork>,
+    account: AccountUuid,
+    snap: Connection,
+    lo: u32,
+    hi: u32,
+}
+
+thread_local! {
+    static RB: RefCell<Option<RbDb>> = const { RefCell::new(None) };
+}
+
+fn with_rb<R>(f: impl FnOnce(&mut RbDb) -> R) -> R {
+    let _permit = Permit::take();
+    RB.with(|cell| {
+        let mut g = cell.borrow_mut();
+        if g.is_none() {
+            let mut st = TestBuilder::new()
+                .with_data_store_factory(TestDbFactory::default())
+                .with_block_cache(BlockCache::new())
+                .with_account_from_sapling_activation(BlockHash([0; 32]))
+                .build();
+            let account = st.test_account().expect("test account").account().id();
+            let lo = u32::from(st.sapling_activation_height());
+            let hi = u32::from(st.generate_and_scan_empty_blocks(RB_BLOCKS as usize));
+            let mut snap = Connection::open_in_memory().expect("snapshot db");
+            {
+                let b = rusqlite::backup::Backup::new(st.wallet().conn(), &mut snap).expect("backup init");
+                b.run_to_completion(1 << 20, std::time::Duration::from_millis(0), None).expect("backup");
+            }
+            *g = Some(RbDb { st, account, snap, lo, hi });
+        }
+        f(g.as_mut().unwrap())
+    })
+}
+
+fn rb_restore(db: &mut RbDb) {
+    let conn = db.st.wallet_mut().conn_mut();
+    conn.flush_prepared_statement_cache();
+    let b = rusqlite::backup::Backup::new(&db.snap, conn).expect("restore init");
+    b.run_to_completion(1 << 20, std::time::Duration::from_millis(0), None).expect("restore");
+}
+
+/// `s` with every height moved up by `off` (an expiry of 0, "never", stays 0). The lifecycle logic
+/// only compares heights, so the translated state behaves exactly like the original.
+pub fn shift_heights(s: &MigrationState, off: u32) -> MigrationState {
+    let up = |h: BlockHeight| bh(u32::from(h) + off);
+    let txs = s
+        .transactions()
+        .iter()
+        .map(|t| {
+            let state = match t.state() {
+                MigrationTxState::Mined { txid, height } => MigrationTxState::Mined { txid, height: up(height) },
+                other => other,
+            };
+            MigrationTransaction::from_parts(
+                t.id(),
+                t.kind(),
+                t.pczt().clone(),
+                t.depends_on().clone(),
+                up(t.scheduled_height()),
+                if u32::from(t.expiry_height()) == 0 { t.expiry_height() } else { up(t.expiry_height()) },
+                t.anchor_boundary().map(up),
+                t.txid(),
+                state,
+                t.lock_owner(),
+                t.unsatisfiable().map(|(h, k)| (up(h), k)),
+                t.spend_nullifiers().clone(),
+                t.broadcast_failure_at().map(up),
+            )
+        })
+        .collect();
+    MigrationState::from_parts(s.status(), s.denominations().clone(), s.preparation().clone(), txs, s.anchor_bucket_interval(), s.replan_threshold())
+}
+
+fn policy_terminal(s: MigrationStatus) -> bool {
+    matches!(s, MigrationStatus::Failed | MigrationStatus::Superseded | MigrationStatus::Cancelled)
+}
+
+/// Save `saved` (heights already in the wallet's scanned range), truncate the WALLET to `h`, load
+/// the migration back and compare with the in-memory rollback at the achieved height.
+fn wallet_rollback_at(db: &mut RbDb, saved: &MigrationState, h: u32, ctx: &str) -> Result<&'static str, Viol> {
+    rb_restore(db);
+    let net = *db.st.network();
+    let account = db.account;
+    {
+        let mut st = store(db.st.wallet_mut().conn_mut(), account, net)?;
+        st.replace_migration(saved).map_err(|e| viol(format!("persist:{ctx}:replace-refused"), format!("replace_migration before the wallet truncation: {e}")))?;
+    }
+    let achieved = catch(|| db.st.wallet_mut().truncate_to_height(bh(h)))
+        .map_err(|p| viol(format!("persist:{ctx}:wallet-truncate-panic"), format!("WalletWrite::truncate_to_height panicked: {p}")))?
+        .map_err(|e| viol("machinery", format!("the wallet refused to truncate to {h}: {e:?}")))?;
+    let mut expected = saved.clone();
+    if !policy_terminal(saved.status()) {
+        expected.truncate_to_height(achieved);
+    }
+    let st = store(db.st.wallet_mut().conn_mut(), account, net)?;
+    let latest = st.latest_migration().map_err(|e| viol(format!("persist:{ctx}:wallet-rollback:latest-error"), format!("latest_migration after the wallet truncation: {e}")))?;
+    if latest.as_ref() != Some(&expected) {
+        let (f, m) = diff2(&latest, &expected);
+        return Err(viol(
+            format!("persist:{ctx}:wallet-rollback!=in-memory-rollback:{f}"),
+            format!(
+                "after replace_migration and WalletWrite::truncate_to_height({h}) (achieved {}), the stored migration differs from MigrationState::truncate_to_height({}) of the saved state (read back vs expected): {m}",
+                u32::from(achieved),
+                u32::from(achieved)
+            ),
+        ));
+    }
+    let pending = st.get_migration().map_err(|e| viol(format!("persist:{ctx}:wallet-rollback:get-error"), format!("get_migration after the wallet truncation: {e}")))?;
+    let want = (!expected.is_terminal()).then(|| expected.clone());
+    if pending != want {
+        return Err(viol(
+            format!("persist:{ctx}:wallet-rollback:pending-read"),
+            format!("get_migration after the wallet truncation returns {} although the rolled-back migration is {:?}", if pending.is_some() { "a migration" } else { "nothing" }, expected.status()),
+        ));
+    }
+    Ok(if expected == *saved { "wallet-rollback:unchanged" } else { "wallet-rollback:rolled-back" })
+}
+
+/// The Rollback event of the explored model, through the real wallet: `pre` is the model state
+/// before the rollback (model heights, all >= `model_floor`), `h` the model height rolled back to.
+pub fn wallet_rollback_explored(pre: &MigrationState, h: u32, model_floor: u32) -> Result<&'static str, Viol> {
+    with_rb(|db| {
+        let off = db.lo + 1 - model_floor.min(db.lo + 1);
+        if h + off < db.lo || h + off > db.hi {
+            return Err(viol("machinery", format!("rollback height {h} outside the rollback wallet's scanned range")));
+        }
+        wallet_rollback_at(db, &shift_heights(pre, off), h + off, "explored")
+    })
+}
+
+/// One point of the rollback lattice: every chain-derived height of the state is placed at
+/// H + d for d in {-1, 0, +1, +2} around the truncation height H.
+#[derive(Clone, Debug, Serialize, Deserialize)]
+pub struct RbPoint {
+    pub status: u8,
+    /// 0..3: AwaitingSignature, Signed, Proved, Broadcast; 4..7: Mined at H-1, H, H+1, H+2.
+    pub state: u8,
+    /// 0: no mark; 1..4: mark resting at H-1, H, H+1, H+2 (kinds rotate).
+    pub mark: u8,
+    /// 0: no failure report; 1..4: reported tip H-1, H, H+1, H+2.
+    pub report: u8,
+}
+
+impl RbPoint {
+    pub fn label(&self) -> String {
+        let d = |n: u8| ["H-1", "H", "H+1", "H+2"][(n - 1) as usize % 4];
+        format!(
+            "{}/{}/mark@{}/report@{}",
+            STATUSES[self.status as usize].wire_name(),
+            if self.state < 4 { super::model::INIT_NAMES[self.state as usize].to_string() } else { format!("Mined@{}", d(self.state - 3)) },
+            if self.mark == 0 { "none" } else { d(self.mark) },
+            if self.report == 0 { "none" } else { d(self.report) }
+        )
+    }
+}
+
+pub fn rollback_points() -> Vec<RbPoint> {
+    let mut v = Vec::new();
+    for status in 0..7u8 {
+        for state in 0..8u8 {
+            for mark in 0..5u8 {
+                for report in 0..5u8 {
+                    v.push(RbPoint { status, state, mark, report });
+                }
+            }
+        }
+    }
+    v
+}
+
+fn rb_tx(i: u8, state: u8, mark: u8, report: u8, h: u32, deps: Vec<u32>) -> MigrationTransaction {
+    let at = |n: u8| bh(h + u32::from(n) - 2); // n in 1..=4 -> H-1 ..= H+2
+    let id = txid(i, 0x7A);
+    let st = match state {
+        0 => MigrationTxState::AwaitingSignature,
+        1 => MigrationTxState::Signed,
+        2 => MigrationTxState::Proved,
+        3 => MigrationTxState::Broadcast { txid: id },
+        n => MigrationTxState::Mined { txid: id, height: at(n - 3) },
+    };
+    let transfer = (i + state) % 2 == 0;
+    MigrationTransaction::from_parts(
+        MigrationTransferId::new(u32::from(i)),
+        if transfer { MigrationTxKind::Transfer { crossing: i as usize } } else { MigrationTxKind::Preparation { layer: 0, index: i as usize } },
+        vec![0x52, i],
+        deps.into_iter().map(MigrationTransferId::new).collect(),
+        bh(h + 3),
+        bh(h + 40),
+        if transfer { Some(at(1 + (state + mark) % 4)) } else { None },
+        id,
+        st,
+        None,
+        if mark == 0 { None } else { Some((at(mark), KINDS[1 + ((mark + i) % 4) as usize].expect("a kind"))) },
+        vec![[0x60 + i; 32]],
+        if report == 0 { None } else { Some(at(report)) },
+    )
+}
+
+pub fn rollback_state(p: &RbPoint, h: u32) -> MigrationState {
+    let (den, prep, grid, thr) = lattice_plan(3);
+    let txs = vec![rb_tx(0, p.state, p.mark, p.report, h, vec![]), rb_tx(1, (p.state + 3) % 8, (p.mark + 2) % 5, (p.report + 1) % 5, h, vec![0])];
+    MigrationState::from_parts(STATUSES[p.status as usize], den, prep, txs, grid, thr)
+}
+
+pub fn check_rollback_point(p: &RbPoint) -> Result<&'static str, Viol> {
+    with_rb(|db| {
+        let h = db.lo + 10;
+        wallet_rollback_at(db, &rollback_state(p, h), h, "lattice")
+    })
+}
